@@ -40,13 +40,14 @@ TOOLCHAIN = "/root/go/pkg/mod/golang.org/toolchain@v0.0.1-go1.24.12.linux-amd64/
 
 # per-property settings: race build, shard count, per-shard wall limit (s)
 # tscale multiplies the thorough tier's case counts so that every thorough run is a few minutes
-# of 16-core work (the quick tier is unaffected)
+# of 16-core work; qscale does the same for the quick tier (10-40 s of 16-core work per property)
 PROPS = {
-    "C01": {"tscale": 20}, "C02": {"tscale": 40}, "C03": {}, "C04": {"race_in_thorough": True}, "C05": {},
-    "C06": {"tscale": 20}, "C07": {"tscale": 40}, "C08": {"race_in_thorough": True}, "C09": {"tscale": 30},
-    "C10": {"tscale": 40}, "C11": {"tscale": 3}, "C12": {"tscale": 40}, "C13": {"tscale": 40}, "C14": {"tscale": 60},
-    "C15": {"tscale": 60}, "C16": {}, "C17": {"tscale": 12}, "C18": {"race": True}, "C19": {"tscale": 30},
-    "C20": {},
+    "C01": {"tscale": 20}, "C02": {"tscale": 40, "qscale": 40}, "C03": {}, "C04": {"race_in_thorough": True}, "C05": {},
+    "C06": {"tscale": 20, "qscale": 15}, "C07": {"tscale": 40, "qscale": 40}, "C08": {"race_in_thorough": True, "qscale": 6},
+    "C09": {"tscale": 30, "qscale": 20}, "C10": {"tscale": 40, "qscale": 12}, "C11": {"tscale": 3, "qscale": 2},
+    "C12": {"tscale": 40, "qscale": 80}, "C13": {"tscale": 40, "qscale": 20}, "C14": {"tscale": 60, "qscale": 80},
+    "C15": {"tscale": 60, "qscale": 80}, "C16": {"qscale": 4}, "C17": {"tscale": 12, "qscale": 15}, "C18": {"race": True},
+    "C19": {"tscale": 30, "qscale": 60}, "C20": {"qscale": 2},
 }
 
 
@@ -141,6 +142,7 @@ def run_shards(worker, prop, tier, seed, nshards, outdir, limit, extra_env=None,
     env = goenv()
     env.pop("GOFLAGS", None)
     env["VERIF_TSCALE"] = str(PROPS.get(prop, {}).get("tscale", 1))
+    env["VERIF_QSCALE"] = os.environ.get("VERIF_QSCALE", str(PROPS.get(prop, {}).get("qscale", 1)))
     env["VERIF_KNOWN"] = os.environ.get("VERIF_KNOWN_SRC", os.path.join(VERIF, "known_findings.json"))
     if extra_env:
         env.update(extra_env)
@@ -179,6 +181,9 @@ def replay_case(worker, prop, tier, seed, job, index, limit=150):
     shutil.rmtree(outdir, ignore_errors=True)
     os.makedirs(outdir)
     env = goenv(); env.pop("GOFLAGS", None)
+    # the same case counts as the run that produced the case, so that the job reaches its index
+    env["VERIF_TSCALE"] = str(PROPS.get(prop, {}).get("tscale", 1))
+    env["VERIF_QSCALE"] = os.environ.get("VERIF_QSCALE", str(PROPS.get(prop, {}).get("qscale", 1)))
     cmd = ["timeout", "-s", "QUIT", str(limit), worker, "-prop", prop, "-tier", tier, "-seed", str(seed),
            "-out", outdir, "-replay-job", job, "-replay-index", str(index)]
     p = subprocess.run(cmd, stdout=subprocess.PIPE, stderr=subprocess.STDOUT, text=True, env=env)
